@@ -39,11 +39,11 @@ FLOORS = {"C19.R1": 3, "C19.R2": 2, "C19.R3": 2, "C19.R4": 16, "C19.R5": 1}
 
 def run(chk):
     prog = chk.prog
-    r1_cutoff(chk)
-    r2_squared(chk)
-    r3_weights(chk)
-    r4_bindings(chk)
-    r5_axes(chk)
+    chk.call(r1_cutoff, chk)
+    chk.call(r2_squared, chk)
+    chk.call(r3_weights, chk)
+    chk.call(r4_bindings, chk)
+    chk.call(r5_axes, chk)
 
 
 def _derives_from(fn, e, param, asg):
